@@ -2,7 +2,11 @@
 // in-process NodeHosts, fault-injecting network) checked for linearizability.
 //
 //	gen: runs the clusters and writes one case per history:
-//	     <id> HIST log=<id:key:val of the applied entries, in apply order> final=<k:v:ver,...|?> smcheck=<ok|msg> nev=<#events> | ev ; ev ; ...
+//	     <id> HIST log=<id:key:val of the applied entries, in apply order> final=<k:v:ver,...|?> smcheck=<ok|msg> mon=<ok|msg> nev=<#events> | ev ; ev ; ...
+//	     (smcheck: the apply streams of the replicas compared index by index; mon: the
+//	      other monitors evaluated while the cluster ran: Committed/Completed order
+//	      under NotifyCommit, a session series applied at most once, QueryRaftLog against
+//	      the applied entries, catch-up of the final membership, requests never answered)
 //	     ev = I <id> W <key> <val> | I <id> R <key> | R <id> <code> <val> <ver> <obs>
 //	     (code = numeric RequestResultCode of request.go, 100 = refused by the API;
 //	      obs = number of updates the replica had applied when the Lookup ran)
@@ -68,7 +72,11 @@ func caseLine(name string, r *histResult) string {
 	for i, e := range evs {
 		parts[i] = e.text
 	}
-	return fmt.Sprintf("%s HIST log=%s final=%s smcheck=%s nev=%d | %s", name, logs, final, smc, len(parts), strings.Join(parts, " ; "))
+	mon := "ok"
+	if r.mon != "" {
+		mon = strings.ReplaceAll(r.mon, " ", "_")
+	}
+	return fmt.Sprintf("%s HIST log=%s final=%s smcheck=%s mon=%s nev=%d | %s", name, logs, final, smc, mon, len(parts), strings.Join(parts, " ; "))
 }
 
 func gen(a vh.Args) {
@@ -110,6 +118,41 @@ func gen(a vh.Args) {
 		if i%4 != 1 {
 			cfg.slowReplica = uint64(1 + r.Intn(3))
 		}
+		// the glue-code dimensions. The first four histories cover each of them at
+		// least once (the first two together: NotifyCommit, sessions, on-disk +
+		// streaming - that pair is what the sub-check R01 runs); later histories
+		// (thorough tier) draw them independently.
+		switch {
+		case i == 0: // concurrent state machine
+			cfg.notifyCommit, cfg.sessions, cfg.queryLog = true, true, true
+		case i == 1: // on-disk state machine, the non-voting replica joins late: streamed snapshot
+			cfg.onDisk, cfg.concurrent, cfg.lateJoin = true, false, true
+			cfg.snapEvery = 20
+			cfg.snapshotOps = true
+		case i == 2: // regular state machine, membership changes through the API
+			cfg.membership, cfg.sessions, cfg.snapshotOps = true, true, true
+		case i == 3: // regular state machine, non-voting replica from the start, no restart
+			cfg.quiesce, cfg.notifyCommit, cfg.queryLog = true, true, true
+		default:
+			d := subRand(seed, 2)
+			cfg.onDisk = d.Chance(1, 3)
+			if cfg.onDisk {
+				cfg.concurrent = false
+				if cfg.snapEvery == 0 {
+					cfg.snapEvery = 20
+				}
+			}
+			cfg.notifyCommit = d.Bool()
+			cfg.sessions = !cfg.onDisk && d.Bool()
+			cfg.lateJoin = d.Bool()
+			cfg.membership = d.Chance(1, 3)
+			cfg.snapshotOps = d.Bool()
+			cfg.queryLog = d.Bool()
+			cfg.quiesce = d.Chance(1, 4)
+		}
+		if cfg.quiesce {
+			cfg.duration += 500 * time.Millisecond // the idle period
+		}
 		// about 350 operations per history in the quick tier, 2000 in thorough
 		target := 350
 		if a.Tier == "thorough" {
@@ -125,9 +168,23 @@ func gen(a vh.Args) {
 			os.Exit(1)
 		}
 		w.Printf("%s\n", caseLine(cfg.name, res))
-		info.Printf("%s concurrent=%v slow=%d/%v checkQuorum=%v clients=%d keys=%d nonvoting=%v ops=%d log=%d net(sent,dropped,delayed,delivered)=%v notes=%v smcheck=%q finalOK=%v\n",
-			cfg.name, cfg.concurrent, cfg.slowReplica, cfg.slowDwell, cfg.checkQuorum, cfg.clients, cfg.keys, cfg.nonVoting, len(res.ops), len(res.log), res.net, res.notes, res.smcheck, res.finalOK)
+		info.Printf("%s dims=%s concurrent=%v slow=%d/%v checkQuorum=%v clients=%d keys=%d nonvoting=%v ops=%d log=%d net(sent,dropped,delayed,delivered)=%v notes=%v smcheck=%q mon=%q finalOK=%v\n",
+			cfg.name, dims(cfg), cfg.concurrent, cfg.slowReplica, cfg.slowDwell, cfg.checkQuorum, cfg.clients, cfg.keys, cfg.nonVoting, len(res.ops), len(res.log), res.net, res.notes, res.smcheck, res.mon, res.finalOK)
 	}
+}
+
+func dims(c histCfg) string {
+	var d []string
+	for _, x := range []struct {
+		on   bool
+		name string
+	}{{c.onDisk, "ondisk"}, {c.notifyCommit, "notifycommit"}, {c.sessions, "sessions"}, {c.lateJoin && c.nonVoting, "latejoin"},
+		{c.membership, "membership"}, {c.snapshotOps, "snapshotops"}, {c.queryLog, "querylog"}, {c.quiesce, "quiesce"}} {
+		if x.on {
+			d = append(d, x.name)
+		}
+	}
+	return strings.Join(d, "+")
 }
 
 func run(a vh.Args) {
@@ -166,6 +223,9 @@ func run(a vh.Args) {
 		var viol []string
 		if c.smcheck != "ok" {
 			viol = append(viol, "apply streams inconsistent: "+c.smcheck)
+		}
+		if c.mon != "ok" {
+			viol = append(viol, "cluster monitor: "+c.mon)
 		}
 		if c.synth > 0 && c.nev == len(c.events)-c.synth {
 			viol = append(viol, fmt.Sprintf("%d applied entries are not operations of any client (fabricated)", c.synth))
